@@ -1420,7 +1420,7 @@ def all_tasks(tier, seed):
     churn_rounds = 100 if tier == 'quick' else 500
     for i, name in enumerate(ENUM_OBJECTS):
         for route in (('conf', 'palette_obj') if tier == 'quick' else ('conf', 'palette_obj', 'palette_cls')):
-            tasks.append([['churn', name, route, i, churn_rounds]])
+            tasks.append([['churn', name, route, i, churn_rounds if route != 'palette_cls' else churn_rounds // 2]])
     for i, name in enumerate(ENUM_OBJECTS):
         tasks.append([['churn_nocolor', name, i, churn_rounds]])
     tasks.append([['churn', 'table_plain', 'palette_obj', 1, 120]])
